@@ -527,7 +527,7 @@ func TestC19Stress(t *testing.T) {
 			CancelAt: rapid.SliceOfN(rapid.SampledFrom([]int{0, 0, 1, 2, 3, 5, 9}), 1, 12).Draw(t, "cancelat")}
 	})
 	vt.Prop[LMStress]{ID: "C19", Test: "TestC19Stress",
-		Rule: "free-running stress under the Go race detector: 2-8 goroutines x 5-60 rounds of Lock/Unlock over 1-3 keys with contexts cancelled after a drawn number of scheduler yields; monitors: at most one holder per key (atomic counter), Lock=false only with a done context, everybody finishes within 20s (otherwise a goroutine dump showing callers inside Lock = lost wake-up), no entries left; non-trivial = contention (more goroutines than keys) with at least one Lock that returned false",
+		Rule: "free-running stress under the Go race detector: 2-8 goroutines x 5-60 rounds of Lock/Unlock over 1-3 keys with contexts cancelled after a drawn number of scheduler yields; monitors: at most one holder per key (atomic counter), Lock=false only with a done context, everybody finishes (after 20 s: every unfinished worker blocked in 5 wait-state samples = lost wake-up / deadlock; a runnable worker extends the wait), no entries left; non-trivial = contention (more goroutines than keys) with at least one Lock that returned false",
 		Gen:  g, Run: runC19Stress}.Main(t)
 }
 
